@@ -76,8 +76,9 @@ void newlines_remove_newlines()
             continue;
          }
          else if (  prev->IsNotNullChunk()
-                 && !prev->GetNext()->IsNewline())
+                 && prev->GetNext() != pc)
          {
+            // the newline chunk was deleted: go on behind its predecessor (pc must not be used any more)
             pc = prev;
          }
       }
